@@ -9,7 +9,7 @@
     ServerTotal models encoding/xml's nesting limit (errUnmarshalDepth at
     10000), CalWire does not ([models_differ_beyond_depth_limit]). *)
 From Coq Require Import Permutation.
-From GW Require Import Base CalTime CalTimeProofs CalXml CalWire CalWireLex.
+From GW Require Import Base CalTime CalTimeProofs CalXml CalWire CalWireLex CalWireServer.
 From GW Require ServerTotal.
 Module ST := ServerTotal.
 
@@ -90,3 +90,443 @@ Lemma parse_ok_true s : ST.parse_utc_ok s = true -> exists z, parse_utc s = Some
 Proof. rewrite parse_ok_iff. destruct (parse_utc s); [eauto | discriminate]. Qed.
 Lemma parse_ok_false s : ST.parse_utc_ok s = false -> parse_utc s = None.
 Proof. rewrite parse_ok_iff. destruct (parse_utc s); [discriminate | reflexivity]. Qed.
+
+(** * Translating trees *)
+Definition tra (a : ST.xattr) : xattr := ((ST.a_ns a, ST.a_local a), ST.a_val a).
+
+Fixpoint tr (t : ST.xtree) : xtree :=
+  match t with
+  | ST.XElem ns l attrs kids => Elem (ns, l) (map tra attrs) (map tr kids)
+  | ST.XText s => Text s
+  | ST.XOther => Comment ""
+  end.
+
+(** [E T t]: the CalWire tree [T] is the ServerTotal tree [t], up to attributes
+    that belong to a namespace (which [t] no longer has). *)
+Definition E (T : xtree) (t : ST.xtree) : Prop := strip_foreign T = tr t.
+
+Lemma map_eq_Forall2 {A B C} (f : A -> C) (g : B -> C) l l' :
+  map f l = map g l' -> Forall2 (fun a b => f a = g b) l l'.
+Proof.
+  revert l'. induction l as [|a l IH]; intros [|b l'] H; try discriminate; constructor; inversion H; auto.
+Qed.
+
+Lemma E_elem_inv T ns l attrs kids :
+  E T (ST.XElem ns l attrs kids) ->
+  exists a k, T = Elem (ns, l) a k /\ drop_foreign a = map tra attrs /\ Forall2 E k kids.
+Proof.
+  unfold E. destruct T as [n a k| |]; cbn; try discriminate. intros H. inversion H; subst.
+  exists a, k. repeat split; auto. now apply map_eq_Forall2.
+Qed.
+Lemma E_text_inv T s : E T (ST.XText s) -> T = Text s.
+Proof. unfold E. destruct T; cbn; try discriminate. intros H. now inversion H. Qed.
+Lemma E_other_inv T : E T ST.XOther -> T = Comment "".
+Proof. unfold E. destruct T; cbn; try discriminate. intros H. now inversion H. Qed.
+
+Lemma E_chardata k kids : Forall2 E k kids -> text_of k = ST.chardata kids.
+Proof.
+  induction 1 as [|T t k kids HE _ IH]; [reflexivity |].
+  destruct t as [ns l attrs kk | s |].
+  - apply E_elem_inv in HE. destruct HE as (a & k0 & -> & _). exact IH.
+  - apply E_text_inv in HE. subst. cbn. now rewrite IH.
+  - apply E_other_inv in HE. subst. exact IH.
+Qed.
+
+(** * Heights and the nesting limit *)
+Fixpoint height (t : ST.xtree) : N :=
+  match t with
+  | ST.XElem _ _ _ kids => 1 + fold_right (fun k m => N.max (height k) m) 0%N kids
+  | _ => 0
+  end.
+
+Definition fits (d : N) (t : ST.xtree) : Prop := (d + 2 * height t <= ST.MAXD)%N.
+
+Lemma height_kid ns l attrs kids k : In k kids -> (height k + 1 <= height (ST.XElem ns l attrs kids))%N.
+Proof.
+  cbn [height]. induction kids as [|x r IH]; cbn [In fold_right]; [tauto |]. intros [->|H]; [lia |].
+  specialize (IH H). lia.
+Qed.
+
+Lemma fits_kid d ns l attrs kids k :
+  fits d (ST.XElem ns l attrs kids) -> In k kids -> fits (d + 2) k.
+Proof. unfold fits. intros H Hin. pose proof (height_kid ns l attrs kids k Hin). lia. Qed.
+
+Lemma fits_lt d ns l attrs kids : fits d (ST.XElem ns l attrs kids) -> (d + 2 <= ST.MAXD)%N.
+Proof. unfold fits. cbn [height]. lia. Qed.
+
+Lemma fits_mono d d' t : fits d t -> (d' <= d)%N -> fits d' t.
+Proof. unfold fits. lia. Qed.
+
+Lemma chk_ok {A} d (x : option A) : (d < ST.MAXD)%N -> ST.chk d x = x.
+Proof. unfold ST.chk. intros H. apply N.leb_gt in H. now rewrite H. Qed.
+
+(** * Simulation *)
+Definition sim {A B} (R : A -> B -> Prop) (o : option A) (r : res B) : Prop :=
+  match o, r with
+  | Some x, Ok y => R x y
+  | None, Err c => c = 400%N
+  | _, _ => False
+  end.
+
+Lemma sim_attrs {A B} (R : A -> B -> Prop) (fa : A -> ST.xattr -> option A)
+      (set : string -> string -> B -> res B) :
+  (forall acc acc' x, R acc acc' -> sim R (fa acc x) (set (ST.a_local x) (ST.a_val x) acc')) ->
+  forall a attrs acc acc', drop_foreign a = map tra attrs -> R acc acc' ->
+  sim R (ST.fold_opt fa attrs acc) (fold_attrs set a acc').
+Proof.
+  intros Hstep. unfold fold_attrs. induction a as [|x a IH]; intros attrs acc acc' Hd HR.
+  - destruct attrs; [|discriminate]. exact HR.
+  - cbn [fold_res]. unfold drop_foreign in Hd. cbn [filter] in Hd.
+    destruct (str_empty (a_space x)) eqn:Ex.
+    + destruct attrs as [|y attrs]; [discriminate |]. cbn [map] in Hd. inversion Hd; subst.
+      cbn [ST.fold_opt]. specialize (Hstep acc acc' y HR).
+      change (a_local (tra y)) with (ST.a_local y). change (a_value (tra y)) with (ST.a_val y).
+      destruct (fa acc y) as [acc1|], (set (ST.a_local y) (ST.a_val y) acc') as [acc1'| |]; cbn in Hstep; try contradiction.
+      * now apply IH.
+      * exact Hstep.
+    + now apply IH.
+Qed.
+
+Lemma sim_kids {A B} (R : A -> B -> Prop) (fk : A -> ST.xtree -> option A) (kid : B -> xtree -> res B) kids :
+  (forall acc acc' T t, In t kids -> E T t -> R acc acc' -> sim R (fk acc t) (kid acc' T)) ->
+  forall k acc acc', Forall2 E k kids -> R acc acc' ->
+  sim R (ST.fold_opt fk kids acc) (fold_res kid k acc').
+Proof.
+  induction kids as [|t kids IH]; intros Hstep k acc acc' Hf HR; inversion Hf; subst.
+  - exact HR.
+  - cbn [ST.fold_opt fold_res].
+    match goal with HE : E ?T t |- _ => pose proof (Hstep acc acc' T t (or_introl eq_refl) HE HR) as Hs end.
+    destruct (fk acc t), (kid acc' x); cbn in Hs; try contradiction.
+    + apply IH; auto. intros. apply Hstep; auto. now right.
+    + exact Hs.
+Qed.
+
+Lemma fold_opt_const {A} (acc : A) (kids : list ST.xtree) : ST.fold_opt (fun acc _ => Some acc) kids acc = Some acc.
+Proof. induction kids; cbn; auto. Qed.
+
+Lemma name_ok_eq NS L ns l :
+  str_empty NS = false -> ST.name_ok (Some (NS, L)) ns l = name_eqb (ns, l) (NS, L).
+Proof.
+  intros H. unfold ST.name_ok, name_eqb. cbn [fst snd]. rewrite H. cbn [orb].
+  rewrite (String.eqb_sym L l), (String.eqb_sym NS ns). apply andb_comm.
+Qed.
+
+(** * Relations between the wire structures of the two models *)
+Definition R_io (o : option string) (o' : option instant) : Prop :=
+  match o, o' with
+  | None, None => True
+  | Some s, Some i => u_instant s = Ok i
+  | _, _ => False
+  end.
+Definition R_tr (x : ST.timeRangeW) (y : w_time_range) : Prop :=
+  R_io (ST.tr_start x) (wtr_start y) /\ R_io (ST.tr_end x) (wtr_end y).
+Definition R_bound (o : option string) (i : instant) : Prop :=
+  match o with None => i = zero_instant | Some s => u_instant s = Ok i end.
+Definition R_ex (x : ST.timeRangeW) (y : w_expand) : Prop :=
+  R_bound (ST.tr_start x) (wex_start y) /\ R_bound (ST.tr_end x) (wex_end y).
+Definition R_tm (x : ST.textMatchW) (y : w_text_match) : Prop :=
+  ST.tm_text x = wtm_text y /\ ST.tm_collation x = wtm_collation y /\ ST.tm_negate x = wtm_negate y.
+Definition R_opt {A B} (R : A -> B -> Prop) (o : option A) (o' : option B) : Prop :=
+  match o, o' with None, None => True | Some a, Some b => R a b | _, _ => False end.
+Definition R_paf (x : ST.paramFilterW) (y : w_param_filter) : Prop :=
+  ST.paf_name x = wpaf_name y /\ ST.paf_ind x = wpaf_ind y /\ R_opt R_tm (ST.paf_tm x) (wpaf_tm y).
+Definition R_pf (x : ST.cpropFilterW) (y : w_prop_filter) : Prop :=
+  ST.cpf_name x = wpf_name y /\ ST.cpf_ind x = wpf_ind y /\ R_opt R_tr (ST.cpf_tr x) (wpf_tr y)
+  /\ R_opt R_tm (ST.cpf_tm x) (wpf_tm y) /\ Forall2 R_paf (ST.cpf_params x) (wpf_params y).
+Inductive R_cf : ST.compFilterW -> w_comp_filter -> Prop :=
+| R_cf_intro n i tr tr' pfs pfs' cfs cfs' :
+    R_opt R_tr tr tr' -> Forall2 R_pf pfs pfs' -> Forall2 R_cf cfs cfs' ->
+    R_cf (ST.CompFilterW n i tr pfs cfs) (WCF n i tr' pfs' cfs').
+Inductive R_comp : ST.compW -> w_comp -> Prop :=
+| R_comp_intro n ap ps ac cs cs' :
+    Forall2 R_comp cs cs' -> R_comp (ST.CompW n ap ps ac cs) (WComp n ap ps ac cs').
+Definition R_cd (x : ST.calDataW) (y : w_cal_data_req) : Prop :=
+  R_opt R_comp (ST.cd_comp x) (wcd_comp y) /\ R_opt R_ex (ST.cd_expand x) (wcd_expand y).
+
+Lemma u_instant_of_ok s : ST.parse_utc_ok s = true -> exists i, u_instant s = Ok i.
+Proof. intros H. apply parse_ok_true in H. destruct H as (z & H). unfold u_instant. rewrite H. eauto. Qed.
+Lemma u_instant_of_bad s : ST.parse_utc_ok s = false -> u_instant s = Err 400.
+Proof. intros H. apply parse_ok_false in H. unfold u_instant. now rewrite H. Qed.
+
+Ltac elem_case t HE :=
+  destruct t as [ns l attrs kids | s |];
+  [ apply E_elem_inv in HE; destruct HE as (a & k & -> & Hd & Hk)
+  | apply E_text_inv in HE; subst; reflexivity
+  | apply E_other_inv in HE; subst; reflexivity ].
+
+(** time-range *)
+Lemma sim_tr d acc acc' T t :
+  E T t -> fits d t -> R_tr acc acc' -> sim R_tr (ST.um_time_range d acc t) (u_time_range acc' T).
+Proof.
+  intros HE Hfit HR. elem_case t HE.
+  unfold ST.um_time_range, ST.um_struct, u_time_range.
+  rewrite chk_ok by (apply fits_lt in Hfit; lia). rewrite name_ok_eq by reflexivity.
+  change (ST.NS_CAL, "time-range") with (cn "time-range").
+  destruct (name_eqb (ns, l) (cn "time-range")); cbn [negb]; [|reflexivity].
+  match goal with |- context [ST.fold_opt ?fa attrs acc] =>
+    pose proof (sim_attrs R_tr fa tr_set) as Ha end.
+  specialize (Ha ltac:(
+    intros x y z [H1 H2]; unfold tr_set; cbv beta;
+    destruct (String.eqb (ST.a_local z) "start");
+    [ destruct (ST.parse_utc_ok (ST.a_val z)) eqn:Ep;
+      [ destruct (u_instant_of_ok _ Ep) as (i & Hi); rewrite Hi; split; [exact Hi | exact H2]
+      | rewrite (u_instant_of_bad _ Ep); reflexivity ]
+    | destruct (String.eqb (ST.a_local z) "end");
+      [ destruct (ST.parse_utc_ok (ST.a_val z)) eqn:Ep;
+        [ destruct (u_instant_of_ok _ Ep) as (i & Hi); rewrite Hi; split; [exact H1 | exact Hi]
+        | rewrite (u_instant_of_bad _ Ep); reflexivity ]
+      | split; assumption ] ]) a attrs acc acc' Hd HR).
+  destruct (ST.fold_opt _ attrs acc) as [a1|], (fold_attrs tr_set a acc') as [a1'| |]; cbn in Ha; try contradiction.
+  - rewrite fold_opt_const. exact Ha.
+  - exact Ha.
+Qed.
+
+(** expand *)
+Lemma sim_ex d acc acc' T t :
+  E T t -> fits d t -> R_ex acc acc' -> sim R_ex (ST.um_expand d acc t) (u_expand acc' T).
+Proof.
+  intros HE Hfit HR. elem_case t HE.
+  unfold ST.um_expand, ST.um_struct, u_expand.
+  rewrite chk_ok by (apply fits_lt in Hfit; lia). rewrite name_ok_eq by reflexivity.
+  change (ST.NS_CAL, "expand") with (cn "expand").
+  destruct (name_eqb (ns, l) (cn "expand")); cbn [negb]; [|reflexivity].
+  match goal with |- context [ST.fold_opt ?fa attrs acc] =>
+    pose proof (sim_attrs R_ex fa ex_set) as Ha end.
+  specialize (Ha ltac:(
+    intros x y z [H1 H2]; unfold ex_set; cbv beta;
+    destruct (String.eqb (ST.a_local z) "start");
+    [ destruct (ST.parse_utc_ok (ST.a_val z)) eqn:Ep;
+      [ destruct (u_instant_of_ok _ Ep) as (i & Hi); rewrite Hi; split; [exact Hi | exact H2]
+      | rewrite (u_instant_of_bad _ Ep); reflexivity ]
+    | destruct (String.eqb (ST.a_local z) "end");
+      [ destruct (ST.parse_utc_ok (ST.a_val z)) eqn:Ep;
+        [ destruct (u_instant_of_ok _ Ep) as (i & Hi); rewrite Hi; split; [exact H1 | exact Hi]
+        | rewrite (u_instant_of_bad _ Ep); reflexivity ]
+      | split; assumption ] ]) a attrs acc acc' Hd HR).
+  destruct (ST.fold_opt _ attrs acc) as [a1|], (fold_attrs ex_set a acc') as [a1'| |]; cbn in Ha; try contradiction.
+  - rewrite fold_opt_const. exact Ha.
+  - exact Ha.
+Qed.
+
+(** text-match (CalDAV: no match-type attribute) *)
+Lemma sim_tm d acc acc' T t :
+  E T t -> fits d t -> R_tm acc acc' ->
+  sim R_tm (ST.um_text_match false ST.NS_CAL d acc t) (u_text_match acc' T).
+Proof.
+  intros HE Hfit HR. elem_case t HE.
+  unfold ST.um_text_match, ST.um_struct, u_text_match.
+  rewrite chk_ok by (apply fits_lt in Hfit; lia). rewrite name_ok_eq by reflexivity.
+  change (ST.NS_CAL, "text-match") with (cn "text-match").
+  destruct (name_eqb (ns, l) (cn "text-match")); cbn [negb]; [|reflexivity].
+  match goal with |- context [ST.fold_opt ?fa attrs acc] =>
+    pose proof (sim_attrs R_tm fa tm_set) as Ha end.
+  specialize (Ha ltac:(
+    intros x y z (H1 & H2 & H3); unfold tm_set, ST.parse_yes_no; cbv beta; cbn [andb];
+    destruct (String.eqb (ST.a_local z) "collation");
+    [ repeat split; assumption
+    | destruct (String.eqb (ST.a_local z) "negate-condition");
+      [ destruct (String.eqb (ST.a_val z) "yes");
+        [ repeat split; assumption
+        | destruct (String.eqb (ST.a_val z) "no"); [repeat split; assumption | reflexivity] ]
+      | repeat split; assumption ] ]) a attrs acc acc' Hd HR).
+  destruct (ST.fold_opt _ attrs acc) as [a1|], (fold_attrs tm_set a acc') as [a1'| |]; cbn in Ha; try contradiction.
+  - rewrite fold_opt_const. destruct Ha as (H1 & H2 & H3). repeat split; cbn; auto.
+    symmetry. now apply E_chardata.
+  - exact Ha.
+Qed.
+
+Lemma R_opt_default {A B} (R : A -> B -> Prop) z z' o o' :
+  R z z' -> R_opt R o o' -> R (match o with Some u => u | None => z end) (opt_default z' o').
+Proof. intros Hz Ho. destruct o, o'; cbn in *; try contradiction; auto. Qed.
+
+Lemma R_tm_zero : R_tm ST.text_match_zero zero_wtm.
+Proof. repeat split. Qed.
+Lemma R_tr_zero : R_tr ST.time_range_zero zero_wtr.
+Proof. split; exact I. Qed.
+Lemma R_ex_zero : R_ex ST.time_range_zero zero_wex.
+Proof. split; reflexivity. Qed.
+
+Ltac kid_case t HE :=
+  destruct t as [ns' l' attrs' kids' | s' |];
+  [ pose proof HE as HE0; apply E_elem_inv in HE0; destruct HE0 as (a' & k' & -> & _ & _)
+  | apply E_text_inv in HE; subst; cbn; try assumption
+  | apply E_other_inv in HE; subst; cbn; try assumption ].
+
+(** param-filter *)
+Lemma sim_paf d acc acc' T t :
+  E T t -> fits d t -> R_paf acc acc' ->
+  sim R_paf (ST.um_param_filter false ST.NS_CAL d acc t) (u_param_filter acc' T).
+Proof.
+  intros HE Hfit HR. elem_case t HE.
+  unfold ST.um_param_filter, ST.um_struct, u_param_filter.
+  pose proof (fits_lt _ _ _ _ _ Hfit) as Hlt.
+  rewrite chk_ok by lia. rewrite name_ok_eq by reflexivity.
+  change (ST.NS_CAL, "param-filter") with (cn "param-filter").
+  destruct (name_eqb (ns, l) (cn "param-filter")); cbn [negb]; [|reflexivity].
+  match goal with |- context [ST.fold_opt ?fa attrs acc] =>
+    pose proof (sim_attrs R_paf fa paf_set) as Ha end.
+  specialize (Ha ltac:(
+    intros x y z (H1 & H2 & H3); unfold paf_set; cbv beta;
+    destruct (String.eqb (ST.a_local z) "name"); repeat split; assumption) a attrs acc acc' Hd HR).
+  destruct (ST.fold_opt _ attrs acc) as [a1|], (fold_attrs paf_set a acc') as [a1'| |]; cbn in Ha; try contradiction;
+    [|exact Ha].
+  match goal with |- context [ST.fold_opt ?fk kids a1] =>
+    pose proof (sim_kids R_paf fk paf_kid kids) as Hks end.
+  assert (Hstep : forall acc acc' T t, In t kids -> E T t -> R_paf acc acc' ->
+            sim R_paf ((fun acc0 k0 =>
+              if ST.kid_local k0 "is-not-defined" then
+                match ST.into_flag d with
+                | Some v => Some {| ST.paf_name := ST.paf_name acc0; ST.paf_ind := v; ST.paf_tm := ST.paf_tm acc0 |}
+                | None => None end
+              else if ST.kid_local k0 "text-match" then
+                match ST.into_ptr (ST.um_text_match false ST.NS_CAL) ST.text_match_zero d (ST.paf_tm acc0) k0 with
+                | Some v => Some {| ST.paf_name := ST.paf_name acc0; ST.paf_ind := ST.paf_ind acc0; ST.paf_tm := v |}
+                | None => None end
+              else Some acc0) acc t) (paf_kid acc' T)).
+  { clear - Hfit Hlt. intros acc acc' T t Hin HE (H1 & H2 & H3). cbv beta.
+    pose proof (fits_kid _ _ _ _ _ _ Hfit Hin) as Hfk.
+    kid_case t HE; try (repeat split; assumption).
+    cbn [ST.kid_local paf_kid]. change (local_is (ns', l') ?x) with (String.eqb l' x).
+    destruct (String.eqb l' "is-not-defined").
+    { unfold ST.into_flag. rewrite chk_ok by lia. repeat split; assumption. }
+    destruct (String.eqb l' "text-match"); [|repeat split; assumption].
+    unfold ST.into_ptr.
+    pose proof (sim_tm (d + 1) _ _ _ _ HE (fits_mono (d + 2) (d + 1) _ Hfk ltac:(lia))
+                       (R_opt_default R_tm _ _ _ _ R_tm_zero H3)) as Hs.
+    destruct (ST.um_text_match _ _ _ _ _), (u_text_match _ _); cbn in Hs; try contradiction.
+    - split; [assumption | split; [assumption | exact Hs]].
+    - exact Hs. }
+  specialize (Hks Hstep k a1 a1' Hk Ha).
+  destruct (ST.fold_opt _ kids a1), (fold_res paf_kid k a1'); cbn in Hks; try contradiction; exact Hks.
+Qed.
+
+Lemma R_paf_zero : R_paf ST.param_filter_zero zero_wpaf.
+Proof. repeat split. Qed.
+
+Lemma Forall2_snoc {A B} (R : A -> B -> Prop) l l' x y : Forall2 R l l' -> R x y -> Forall2 R (l ++ [x]) (l' ++ [y]).
+Proof. intros. apply Forall2_app; auto. Qed.
+
+(** prop-filter *)
+Lemma sim_pf d acc acc' T t :
+  E T t -> fits d t -> R_pf acc acc' ->
+  sim R_pf (ST.um_cprop_filter d acc t) (u_prop_filter acc' T).
+Proof.
+  intros HE Hfit HR. elem_case t HE.
+  unfold ST.um_cprop_filter, ST.um_struct, u_prop_filter.
+  pose proof (fits_lt _ _ _ _ _ Hfit) as Hlt.
+  rewrite chk_ok by lia. rewrite name_ok_eq by reflexivity.
+  change (ST.NS_CAL, "prop-filter") with (cn "prop-filter").
+  destruct (name_eqb (ns, l) (cn "prop-filter")); cbn [negb]; [|reflexivity].
+  match goal with |- context [ST.fold_opt ?fa attrs acc] =>
+    pose proof (sim_attrs R_pf fa pf_set) as Ha end.
+  specialize (Ha ltac:(
+    intros x y z (H1 & H2 & H3 & H4 & H5); unfold pf_set; cbv beta;
+    destruct (String.eqb (ST.a_local z) "name"); repeat split; assumption) a attrs acc acc' Hd HR).
+  destruct (ST.fold_opt _ attrs acc) as [a1|], (fold_attrs pf_set a acc') as [a1'| |]; cbn in Ha; try contradiction;
+    [|exact Ha].
+  match goal with |- context [ST.fold_opt ?fk kids a1] =>
+    pose proof (sim_kids R_pf fk pf_kid kids) as Hks;
+    assert (Hstep : forall acc acc' T t, In t kids -> E T t -> R_pf acc acc' ->
+                                         sim R_pf (fk acc t) (pf_kid acc' T)) end.
+  { clear - Hfit Hlt. intros acc acc' T t Hin HE (H1 & H2 & H3 & H4 & H5). cbv beta.
+    pose proof (fits_kid _ _ _ _ _ _ Hfit Hin) as Hfk.
+    kid_case t HE; try (repeat split; assumption).
+    cbn [ST.kid_local pf_kid]. change (local_is (ns', l') ?x) with (String.eqb l' x).
+    destruct (String.eqb l' "is-not-defined").
+    { unfold ST.into_flag. rewrite chk_ok by lia. repeat split; assumption. }
+    destruct (String.eqb l' "time-range").
+    { unfold ST.into_ptr.
+      pose proof (sim_tr (d + 1) _ _ _ _ HE (fits_mono (d + 2) (d + 1) _ Hfk ltac:(lia))
+                         (R_opt_default R_tr _ _ _ _ R_tr_zero H3)) as Hs.
+      destruct (ST.um_time_range _ _ _), (u_time_range _ _); cbn in Hs; try contradiction; [|exact Hs].
+      split; [assumption | split; [assumption | split; [exact Hs | split; assumption]]]. }
+    destruct (String.eqb l' "text-match").
+    { unfold ST.into_ptr.
+      pose proof (sim_tm (d + 1) _ _ _ _ HE (fits_mono (d + 2) (d + 1) _ Hfk ltac:(lia))
+                         (R_opt_default R_tm _ _ _ _ R_tm_zero H4)) as Hs.
+      destruct (ST.um_text_match _ _ _ _ _), (u_text_match _ _); cbn in Hs; try contradiction; [|exact Hs].
+      split; [assumption | split; [assumption | split; [assumption | split; [exact Hs | assumption]]]]. }
+    destruct (String.eqb l' "param-filter"); [|repeat split; assumption].
+    unfold ST.into_slice. rewrite chk_ok by lia.
+    pose proof (sim_paf (d + 2) _ _ _ _ HE Hfk R_paf_zero) as Hs.
+    destruct (ST.um_param_filter _ _ _ _ _), (u_param_filter _ _); cbn in Hs; try contradiction; [|exact Hs].
+    split; [assumption | split; [assumption | split; [assumption | split; [assumption |]]]].
+    cbn. now apply Forall2_snoc. }
+  specialize (Hks Hstep k a1 a1' Hk Ha).
+  destruct (ST.fold_opt _ kids a1), (fold_res pf_kid k a1'); cbn in Hks; try contradiction; exact Hks.
+Qed.
+
+(** * Nested induction on ServerTotal's trees *)
+Section STInd.
+  Variable P : ST.xtree -> Prop.
+  Hypothesis HE : forall ns l attrs kids, Forall P kids -> P (ST.XElem ns l attrs kids).
+  Hypothesis HT : forall s, P (ST.XText s).
+  Hypothesis HO : P ST.XOther.
+  Fixpoint stree_ind2 (t : ST.xtree) : P t :=
+    match t with
+    | ST.XElem ns l attrs kids =>
+      HE ns l attrs kids ((fix go (ks : list ST.xtree) : Forall P ks :=
+                             match ks with
+                             | [] => Forall_nil _
+                             | x :: r => Forall_cons x (stree_ind2 x) (go r)
+                             end) kids)
+    | ST.XText s => HT s
+    | ST.XOther => HO
+    end.
+End STInd.
+
+Lemma R_cf_zero : R_cf ST.comp_filter_zero zero_wcf.
+Proof. constructor; [exact I | constructor | constructor]. Qed.
+
+(** comp-filter *)
+Lemma sim_cf t : forall d acc acc' T,
+  E T t -> fits d t -> R_cf acc acc' ->
+  sim R_cf (ST.um_comp_filter d acc t) (u_comp_filter acc' T).
+Proof.
+  induction t as [ns l attrs kids IH | s |] using stree_ind2; intros d acc acc' T HE Hfit HR;
+    [ apply E_elem_inv in HE; destruct HE as (a & k & -> & Hd & Hk)
+    | apply E_text_inv in HE; subst; reflexivity
+    | apply E_other_inv in HE; subst; reflexivity ].
+  rewrite u_comp_filter_eq. cbn [ST.um_comp_filter]. unfold ST.um_struct.
+  pose proof (fits_lt _ _ _ _ _ Hfit) as Hlt.
+  rewrite chk_ok by lia. rewrite name_ok_eq by reflexivity.
+  change (ST.NS_CAL, "comp-filter") with (cn "comp-filter").
+  destruct (name_eqb (ns, l) (cn "comp-filter")); cbn [negb]; [|reflexivity].
+  match goal with |- context [ST.fold_opt ?fa attrs acc] =>
+    pose proof (sim_attrs R_cf fa wcf_set) as Ha end.
+  specialize (Ha ltac:(
+    intros x y z H; inversion H; subst; unfold wcf_set; cbv beta;
+    destruct (String.eqb (ST.a_local z) "name"); cbn; constructor; assumption) a attrs acc acc' Hd HR).
+  destruct (ST.fold_opt _ attrs acc) as [a1|], (fold_attrs wcf_set a acc') as [a1'| |]; cbn in Ha; try contradiction;
+    [|exact Ha].
+  match goal with |- context [ST.fold_opt ?fk kids a1] =>
+    pose proof (sim_kids R_cf fk cf_kid kids) as Hks;
+    assert (Hstep : forall acc acc' T t, In t kids -> E T t -> R_cf acc acc' ->
+                                         sim R_cf (fk acc t) (cf_kid acc' T)) end.
+  { clear - Hfit Hlt IH. intros acc acc' T t Hin HE HR. inversion HR as [n i tr tr' pfs pfs' cfs cfs' H3 H4 H5]; subst.
+    cbv beta.
+    pose proof (fits_kid _ _ _ _ _ _ Hfit Hin) as Hfk.
+    kid_case t HE; try (constructor; assumption).
+    cbn [ST.kid_local cf_kid]. change (local_is (ns', l') ?x) with (String.eqb l' x).
+    destruct (String.eqb l' "is-not-defined").
+    { unfold ST.into_flag. rewrite chk_ok by lia. constructor; assumption. }
+    destruct (String.eqb l' "time-range").
+    { unfold ST.into_ptr.
+      pose proof (sim_tr (d + 1) _ _ _ _ HE (fits_mono (d + 2) (d + 1) _ Hfk ltac:(lia))
+                         (R_opt_default R_tr _ _ _ _ R_tr_zero H3)) as Hs.
+      destruct (ST.um_time_range _ _ _), (u_time_range _ _); cbn in Hs; try contradiction; [|exact Hs].
+      constructor; assumption. }
+    destruct (String.eqb l' "prop-filter").
+    { unfold ST.into_slice. rewrite chk_ok by lia.
+      pose proof (sim_pf (d + 2) ST.cprop_filter_zero zero_wpf _ _ HE Hfk ltac:(repeat split; constructor)) as Hs.
+      destruct (ST.um_cprop_filter _ _ _), (u_prop_filter _ _); cbn in Hs; try contradiction; [|exact Hs].
+      constructor; [assumption | now apply Forall2_snoc | assumption]. }
+    destruct (String.eqb l' "comp-filter"); [|constructor; assumption].
+    rewrite chk_ok by lia.
+    rewrite Forall_forall in IH.
+    pose proof (IH _ Hin (d + 2)%N _ _ _ HE Hfk R_cf_zero) as Hs.
+    destruct (ST.um_comp_filter _ _ _), (u_comp_filter _ _); cbn in Hs; try contradiction; [|exact Hs].
+    constructor; [assumption | assumption | now apply Forall2_snoc]. }
+  specialize (Hks Hstep k a1 a1' Hk Ha).
+  destruct (ST.fold_opt _ kids a1), (fold_res cf_kid k a1'); cbn in Hks; try contradiction; exact Hks.
+Qed.
